@@ -334,6 +334,40 @@ fn last_case_of(stderr: &[u8]) -> Option<(Option<u64>, Value)> {
     Some((None, parse_json::<Value>(line).ok()?))
 }
 
+/// CPU time (user + system, all threads) a child process has consumed so far. The watchdogs count
+/// this clock, not wall time: a subject that really hangs burns CPU, a worker that is merely starved
+/// on a busy machine does not, so the verdict "hang" does not depend on the machine's load. Wall
+/// time is only a far-away backstop (20x).
+fn child_cpu(pid: u32) -> Option<Duration> {
+    let s = std::fs::read_to_string(format!("/proc/{pid}/stat")).ok()?;
+    let rest = &s[s.rfind(')')? + 1..];
+    let f: Vec<&str> = rest.split_whitespace().collect();
+    // after the command name: state is f[0], utime is field 14 of the line = f[11], stime f[12]
+    let ut: u64 = f.get(11)?.parse().ok()?;
+    let st: u64 = f.get(12)?.parse().ok()?;
+    Some(Duration::from_millis((ut + st) * 10))
+}
+
+/// CPU time this process has consumed (10 ms granularity); the clock of every in-worker time limit
+/// that can influence a verdict or a finding key (wall time would make them depend on machine load)
+pub fn self_cpu() -> Duration {
+    child_cpu(std::process::id()).unwrap_or_default()
+}
+
+fn watchdog_expired(pid: u32, start: Instant, timeout: Duration) -> bool {
+    let wall = start.elapsed();
+    if wall <= timeout {
+        return false;
+    }
+    if wall > timeout * 20 {
+        return true;
+    }
+    match child_cpu(pid) {
+        Some(cpu) => cpu > timeout,
+        None => true,
+    }
+}
+
 fn run_worker(id: &str, tier: Tier, lo: u64, hi: u64, timeout: Duration, trace: bool, skip: u64) -> WorkerOutcome {
     let exe = std::env::current_exe().expect("current exe");
     let mut cmd = Command::new(exe);
@@ -389,7 +423,7 @@ fn run_worker(id: &str, tier: Tier, lo: u64, hi: u64, timeout: Duration, trace: 
         match child.try_wait() {
             Ok(Some(st)) => break Some(st),
             Ok(None) => {
-                if start.elapsed() > timeout {
+                if watchdog_expired(child.id(), start, timeout) {
                     let _ = child.kill();
                     let _ = child.wait();
                     break None;
@@ -503,6 +537,18 @@ pub fn supervise(check: &dyn Check, tier: Tier) -> i32 {
     let chunk = check.chunk(tier).max(1);
     let nchunks = units.div_ceil(chunk);
     let next = AtomicU64::new(0);
+    let stride = {
+        // nearest value to nchunks / golden ratio that is coprime to nchunks
+        fn gcd(a: u64, b: u64) -> u64 {
+            if b == 0 { a } else { gcd(b, a % b) }
+        }
+        let mut k = ((nchunks as f64) * 0.6180339887) as u64;
+        k = k.max(1);
+        while nchunks > 1 && gcd(k, nchunks) != 1 {
+            k += 1;
+        }
+        k
+    };
     let total = Mutex::new(ChunkResult::default());
     let units_done = AtomicU64::new(0);
     let capped = AtomicBool::new(false);
@@ -521,6 +567,10 @@ pub fn supervise(check: &dyn Check, tier: Tier) -> i32 {
                 if c >= nchunks {
                     break;
                 }
+                // chunks are visited in a fixed stride order (a bijection on 0..nchunks), so that a
+                // run that is cut short by the deadline has looked into every family instead of
+                // only the leading ones
+                let c = (c as u128 * stride as u128 % nchunks as u128) as u64;
                 let lo = c * chunk;
                 let hi = ((c + 1) * chunk).min(units);
                 let timeout = unit_timeout * (hi - lo).min(8) as u32;
@@ -641,7 +691,7 @@ pub fn supervise(check: &dyn Check, tier: Tier) -> i32 {
         "rule": info.rule,
         "samples": if total.samples.is_empty() { vec![json!("<no sample recorded>")] } else { total.samples.clone() },
         "exhaustive": exhaustive,
-        "bound_completed": if capped { format!("CAPPED by the {deadline_s}s deadline after {units_done} of {units} units; intended bound: {}", info.bound) } else { info.bound.clone() },
+        "bound_completed": if capped { format!("CAPPED by the {deadline_s}s deadline after {units_done} of {units} units (visited in stride order across all families); intended bound: {}", info.bound) } else { info.bound.clone() },
         "units_total": units,
         "units_done": units_done,
         "capped": capped,
@@ -729,7 +779,7 @@ pub fn replay_subprocess(id: &str, case: &Value) -> String {
         match child.try_wait() {
             Ok(Some(st)) => break Some(st),
             Ok(None) => {
-                if start.elapsed() > Duration::from_secs(20) {
+                if watchdog_expired(child.id(), start, Duration::from_secs(20)) {
                     let _ = child.kill();
                     let _ = child.wait();
                     break None;
